@@ -1,4 +1,5 @@
 import DesyncModel.Exec
+import DesyncModel.Pipe.Exec
 open Desync
 
 /-- parse `pool N objects KINDS gates M ...` -/
@@ -10,12 +11,20 @@ def parseHeader (ws : List String) : Option (Nat × Nat × Nat) :=
   | some p, some o, some g => some (p.toNat?.getD 0, o.length, g.toNat?.getD 0)
   | _, _, _ => none
 
+def parseChans (ws : List String) : Nat :=
+  let rec find : List String → Nat
+    | a :: b :: rest => if a == "chans" then b.toNat?.getD 0 else find (b :: rest)
+    | _ => 0
+  find ws
+
 structure Totals where
   ok : Nat := 0
   mismatch : Nat := 0
   skipped : Nat := 0
   events : Nat := 0
   hits : List (String × Nat) := []
+  pipeOk : Nat := 0
+  pipeHits : List (String × Nat) := []
   firstMismatch : Option String := none
 
 def addHits (t : List (String × Nat)) (hs : List String) : List (String × Nat) :=
@@ -23,11 +32,47 @@ def addHits (t : List (String × Nat)) (hs : List String) : List (String × Nat)
     | some _ => acc.map (fun p => if p.1 == h then (p.1, p.2 + 1) else p)
     | none => (h, 1) :: acc) t
 
+/-- executions of programs with pipes: only the pipe events are replayed (through the pipe model) -/
+partial def loopPipe (h : IO.FS.Stream) (hdr : String) (r : Pipe.PReplay) (n : Nat) (err : Option String) (tot : Totals) (verbose : Bool) : IO Totals := do
+  let line ← h.getLine
+  if line.isEmpty then return tot
+  let line := line.trimAscii.toString
+  if line.startsWith "#end" then
+    let okEnd := (line.splitOn " ").contains "ok"
+    let err := match err with
+      | some e => some e
+      | none => if okEnd then Pipe.quietCheck r else none
+    match err with
+    | some e =>
+      IO.println s!"MISMATCH {hdr} :: {e}"
+      return { tot with mismatch := tot.mismatch + 1, events := tot.events + n, firstMismatch := tot.firstMismatch <|> some s!"{hdr} :: {e}" }
+    | none =>
+      if verbose then IO.println s!"OK {hdr} pipe-events={n}"
+      return { tot with pipeOk := tot.pipeOk + 1, events := tot.events + n, pipeHits := addHits tot.pipeHits r.hits }
+  else
+    match err with
+    | some _ => loopPipe h hdr r n err tot verbose
+    | none =>
+      let ws := (line.splitOn " ").filter (· != "")
+      match ws with
+      | agS :: rest =>
+        let ag := agS.toNat?.getD 0
+        match Pipe.replayEvent r ag rest with
+        | .ok r' =>
+          if verbose && (← IO.getEnv "DRIVER_DEBUG").isSome && r'.hits.length != r.hits.length then
+            IO.println s!"  {n+1} `{line}` -> {r'.hits.head?.getD ""} :: {(r'.pipes.map (fun p => Pipe.describe p.2))}"
+          loopPipe h hdr { r' with hits := r'.hits } (n + 1) none tot verbose
+        | .error e => loopPipe h hdr r n (some s!"event {n + 1} `{line}`: {e}") tot verbose
+      | [] => loopPipe h hdr r n err tot verbose
+
 partial def loop (h : IO.FS.Stream) (cur : Option (String × Replay × Nat × Option String)) (tot : Totals) (verbose : Bool) : IO Totals := do
   let line ← h.getLine
   if line.isEmpty then return tot
   let line := line.trimAscii.toString
-  if line.startsWith "#exec" then
+  if line.startsWith "#exec" && parseChans (line.splitOn " ") > 0 then
+    let tot ← loopPipe h line {} 0 none tot verbose
+    loop h none tot verbose
+  else if line.startsWith "#exec" then
     let ws := line.splitOn " "
     match parseHeader ws with
     | some (pool, nobj, ngates) =>
@@ -83,7 +128,10 @@ def main (args : List String) : IO UInt32 := do
     let tot ← loop (IO.FS.Stream.ofHandle hdl) none {} verbose
     let covered := allPcNames.filter (fun n => tot.hits.any (·.1 == n))
     let missing := allPcNames.filter (fun n => !tot.hits.any (·.1 == n))
-    IO.println s!"SUMMARY ok={tot.ok} mismatch={tot.mismatch} skipped={tot.skipped} events={tot.events} covered={covered.length}/{allPcNames.length}"
+    let pcov := Pipe.allLabelNames.filter (fun n => tot.pipeHits.any (fun p => p.1 == n || p.1.startsWith (n ++ "-")))
+    IO.println s!"SUMMARY ok={tot.ok} mismatch={tot.mismatch} skipped={tot.skipped} events={tot.events} covered={covered.length}/{allPcNames.length} pipe_ok={tot.pipeOk} pipe_labels={pcov.length}/{Pipe.allLabelNames.length}"
+    let phs := tot.pipeHits.map (fun p => s!"{p.1}:{p.2}")
+    IO.println s!"PIPEHITS {phs}"
     IO.println s!"MISSING {missing}"
     let hs := tot.hits.map (fun p => s!"{p.1}:{p.2}")
     IO.println s!"HITS {hs}"
